@@ -924,8 +924,39 @@ def many_sections_battery(ops_after):
     return out
 
 
+def far_apart_battery():
+    """appends whose timestamps lie 2^63 or more apart (a 'newer' test done in signed arithmetic breaks there):
+    far newer lines are accepted, far older ones refused without touching range / files, also after a reopen"""
+    out = []
+    H63 = 1 << 63
+    for p in (0, 4):
+        for base in (0, 1001, 70000):
+            h = Hist(p)
+            h.new()
+            if base:
+                h.push(5, pl=bytes(p))
+            h.push(base + 1, pl=bytes([1] * p))
+            h.push(base + 1 + H63, pl=bytes([2] * p))            # exactly 2^63 later: newer
+            h.op("range")
+            h.op(f"push ts={base + 2} pl={hexs(bytes([3] * p))}")   # 2^63 - 1 older: refused
+            h.op("push ts=5 pl=" + hexs(bytes([3] * p)))
+            h.op("range")
+            h.op("files")
+            h.push(U64 - 1, pl=bytes([4] * p))
+            h.reopen()
+            h.op("push ts=5 pl=" + hexs(bytes([5] * p)))           # far older after a reopen
+            h.op(f"push ts={H63 - 2} pl={hexs(bytes([5] * p))}")
+            h.op("range")
+            h.op("files")
+            h.push(U64, pl=bytes([6] * p))
+            h.op("range")
+            h.op("len")
+            out.append((f"far-apart-{base}-p{p}", h.script()))
+    return out
+
+
 def gen_C03(rng, tier):
-    out = refusals_with_caches_battery(rng, tier, ["files", "len", "range"])
+    out = refusals_with_caches_battery(rng, tier, ["files", "len", "range"]) + far_apart_battery()
     for h0 in _histories(rng, tier, PAYLOADS_SMALL):
         h = Hist(h0.p, hdr=h0.hdr)
         h.new()
@@ -970,6 +1001,28 @@ def gen_C04(rng, tier):
     out += mixed_session_battery(rng, ["files", "len", "range"])
     out += delta_bytes_battery(["files", "read_all s=U e=U", "len", "range"])
     out += empty_reopen_battery(["files", "len", "range", "read_all s=U e=U"])
+    # the largest user headers create accepts (stored header length 65535 - d): reopen, accessors, append, reopen
+    for p in (0, 4):
+        for d in range(0, 7):
+            hd = bytes((i * 7 + d) % 251 for i in range(max_user_header(p) - d))
+            h = Hist(p, hdr=hd)
+            h.new()
+            h.push(5, pl=bytes(p))
+            h.push(9, pl=bytes([7] * p))
+            h.op("close")
+            h.op("files")
+            h.open()
+            h.op("len")
+            h.op("range")
+            h.op("read_all s=U e=U")
+            h.op(f"push ts=12 pl={hexs(bytes([9] * p))}")
+            h.ts.append(12)
+            h.op("close")
+            h.open(hdr=hd, p=p)
+            h.op("len")
+            h.op("close")
+            h.op("files")
+            out.append((f"largest-header-{d}-p{p}", h.script()))
     # series whose NAME contains dots: create, append, close, reopen under the same name - every file the
     # create made must be the file the open looks for
     for nm in ("s.v2", "s.4", "s.2024-05"):
@@ -2113,6 +2166,23 @@ def gen_C09(rng, tier):
             h.op("files")
             h.op("close")
         out.append((f"torn-B{B}-p{p}", h.script()))
+    # the cache's INDEX (and the source's) cut at every small length: inside its 4-byte header, inside and after its first entries
+    for p, B in ((4, 3), (0, 2)):
+        h = Hist(p, caches=[B])
+        h.new()
+        h.pushrun(1000, 7, 4 * B + 1, 3)
+        h.pushrun(h.last() + 100000, 7, 2 * B, 4)
+        h.op("files")
+        h.op("close")
+        h.op("save 0")
+        for role in (f"c{B}i", "index"):
+            for n in list(range(0, 22)) + [35, 36, 37]:
+                h.op("restore 0")
+                h.op(f"cut {role} {n}")
+                h.open()
+                h.op("files")
+                h.op("close")
+        out.append((f"cache-index-cut-small-B{B}-p{p}", h.script()))
     # source torn with the cache ahead
     for i in range(6 if tier == "quick" else 40):
         p = rng.choice([0, 2, 4])
